@@ -9,12 +9,12 @@
 (***************************************************************************)
 EXTENDS SmtpSession
 CONSTANT MaxCmds
-A(l, d) == [loc |-> l, dom |-> d, noat |-> FALSE, long |-> FALSE, lit |-> FALSE]
+A(l, d) == [loc |-> l, dom |-> d, noat |-> FALSE, long |-> FALSE, lit |-> FALSE, edge |-> FALSE]
 Senders == {A("s", <<"ok","test">>), A("bad", <<"bmf","test">>), A("x", <<"bmfdom","test">>), A("", <<>>),
-            [A("s", <<"ok","test">>) EXCEPT !.long = TRUE]}
+            [A("s", <<"ok","test">>) EXCEPT !.long = TRUE], [A("s", <<>>) EXCEPT !.lit = TRUE, !.edge = TRUE]}
 Rcpts == {A("r", <<"rh","test">>), A("r", <<"sub","dot","test">>), A("r", <<"dot","test">>), A("r", <<"more","test">>), A("r", <<"x","moredot","test">>),
           A("r", <<"other","test">>), A("r", <<"x","rh","test">>), [A("r", <<>>) EXCEPT !.noat = TRUE], [A("r", <<>>) EXCEPT !.lit = TRUE],
-          [A("r", <<"rh","test">>) EXCEPT !.long = TRUE]}
+          [A("r", <<"rh","test">>) EXCEPT !.long = TRUE], [A("r", <<>>) EXCEPT !.lit = TRUE, !.edge = TRUE]}
 Cmds == {[verb |-> v, a |-> MonInit.sender] : v \in {"HELO", "EHLO", "RSET", "NOOP", "VRFY", "HELP", "XXXX", "DATA"}}
         \cup {[verb |-> "MAIL", a |-> s] : s \in Senders} \cup {[verb |-> "RCPT", a |-> r] : r \in Rcpts}
 Base == [rh |-> TRUE, exact |-> {<<"rh","test">>, <<"lip","test">>}, suffix |-> {<<"dot","test">>}, mexact |-> {<<"more","test">>}, msuffix |-> {<<"moredot","test">>},
